@@ -6,6 +6,7 @@ cd /verif
 for d in seeded/*${1}*/; do
   id=$(basename $d)
   props=$(python3 -c "import json;print(' '.join(json.load(open('$d/meta.json'))['caught_by'][:1]))")
+  if [ -z "$props" ]; then echo "$id: NOT-CAUGHT (recorded as such in meta.json, see note)"; continue; fi
   git -C /repo apply /verif/${d}patch.diff || { echo "$id: PATCH DOES NOT APPLY"; continue; }
   n=0
   for p in $props; do
